@@ -42,18 +42,21 @@ PROP = {
     "harness_timeout_s": {"quick": 400, "thorough": 1700},
     "rule": "real message.Routers (one per stage / one with all handlers) connected by one real GoChannel (buffer 0/1/4 x blocking x persistent), "
             "chains of 1..4 stages and three fan-out/fan-in shapes, 1..5 messages carrying a lineage id, scripted faults {handler error, handler "
-            "panic, publish error, publish panic, error after the message was handed on} on the k-th call of a stage, injected by a handler wrapper "
+            "panic, publish error, publish panic, error after the message was handed on, handler error / publish error that wraps "
+            "context.Canceled} on the k-th call of a stage, injected by a handler wrapper "
             "and a publisher wrapper (passed to AddHandler or installed with AddPublisherDecorators), optional foreign subscriber (tap) on the source "
             "topic, seeded yield injection at all router.* / gochannel.* hook points and in the wrappers. Stages may emit 2..3 outputs per input (derived lineages l*w+j, the sink must see "
             "every derived lineage); px faults refuse the Publish call that contains output #j of the k-th invocation of a stage. "
-            "Quick: every placement of <= 2 faults "
-            "(5 kinds x stage x call 1..3) on chains of <= 2 stages with <= 2 messages (1174 cases) + every placement of <= 2 faults among "
+            "Every handler edits the copy it received in place (payload field replaced, hop counter incremented, mark set) "
+            "and every delivery is compared with the message as published. Quick: every placement of <= 2 faults "
+            "(7 kinds x stage x call 1..3) on chains of <= 2 stages with <= 2 messages (2272 cases) + every placement of <= 2 faults among "
             "{px x invocation 1..2 x position, 5 kinds x stage x call 1} on the multi-output chains 1x2, 1x3, 1x2/2, 1/2x2 (650 cases) "
             "+ 200 random longer scripts (a third of the chains with multi-output stages); thorough adds every "
-            "placement of <= 3 faults on the 3-stage chain (calls 1..3, 15226 cases), larger multi-output universes (1x2/2x2, 1/2x2/3, 1x3/2x2) and 5000 random. Oracle: the recorded event trace must be a run "
+            "placement of <= 3 faults of the 5 plain kinds (15226 cases) and of <= 2 faults of all 7 kinds (2017 cases) on the 3-stage chain (calls 1..3), larger multi-output universes (1x2/2x2, 1/2x2/3, 1x3/2x2) and 5000 random. Oracle: the recorded event trace must be a run "
             "of the Lean model Pipeline.act ending in a terminal state (M line) and must satisfy the C01 monitor (P line): Ack only after the "
             "real Publish returned nil for EVERY output of that invocation, sink lineages derive from a published source lineage, every derived "
-            "lineage of every successfully published source lineage is at the sink at quiescence (liveness bound 30 s), every Nacked copy was followed by a later delivery. Non-trivial = a case with an "
+            "lineage of every successfully published source lineage is at the sink at quiescence (liveness bound 30 s), every Nacked copy was followed by a later delivery, and every delivered copy is the message as published "
+            "(no trace of the in-place edits of a failed attempt). Non-trivial = a case with an "
             "injected fault and a redelivery.",
     "trusted_base": [
         "Lean 4.33.0 kernel; axioms per theorem under theorem_axioms",
